@@ -1237,7 +1237,6 @@ func (c *Ctx) debugPrintLevels(f *ssa.Function, minLevel *int64, prints *int) {
 	}
 }
 
-
 // entryAlias: the name of fn, or of the (unique) cobra hook / handler it is statically reached from through repo functions.
 func (c *Ctx) entryAlias(fn *ssa.Function) string {
 	if _, ok := funcAlias[fn]; ok {
@@ -1282,7 +1281,6 @@ func (c *Ctx) entryAlias(fn *ssa.Function) string {
 	return fname(fn)
 }
 
-
 // onlyFeedsLoggerSetup: the loaded stream is used only as an argument of logx.Setup.
 func onlyFeedsLoggerSetup(v ssa.Value) bool {
 	refs := v.Referrers()
@@ -1310,7 +1308,6 @@ func onlyFeedsLoggerSetup(v ssa.Value) bool {
 	}
 	return true
 }
-
 
 // onlyHandedOn: the loaded stream is only passed along as an argument (never the receiver of a call such as Stat).
 func onlyHandedOn(v ssa.Value) bool {
